@@ -281,6 +281,12 @@ def r10_2(ctx):
                     dv = getattr(g2.nodes[dd].stmt, "value", None)
                     if dv is None or norm(dv) != "self._shape":
                         form_a = False
+                    else:
+                        # the stored shape must not change between this read and the emission
+                        later = [ss for ss in shape_stores if ss.id in g2.reach([dd]) and L.id in g2.reach([ss.id])]
+                        if later:
+                            form_a = False
+                            detail = f"self._shape is overwritten (line {later[0].lineno}) after the frame's shape was read from it"
             form_b = False
             if not form_a and isinstance(wn, ast.Name) and isinstance(hn, ast.Name):
                 for ss in shape_stores:
